@@ -37,6 +37,16 @@ def bootstrap(disable_jit=True):
     warnings.filterwarnings("ignore", category=UserWarning)
     import pystencils as ps
 
+    # pystencils 2.0 names only three spatial loop counters; SophT's 3-D "vector" element-wise
+    # kernels are declared over 4-D fields (pystencils 1.x accepted that).  Supplying a fourth
+    # counter name is all 2.0 needs (probe: generated loop nest and compiled result are correct).
+    from pystencils.defaults import DEFAULTS
+    from pystencils.sympyextensions.typed_sympy import DynamicType, TypedSymbol
+
+    if len(DEFAULTS.spatial_counter_names) < 4:
+        DEFAULTS.spatial_counter_names = tuple(f"ctr_{i}" for i in range(4))
+        DEFAULTS.spatial_counters = tuple(TypedSymbol(f"ctr_{i}", DynamicType.INDEX_TYPE) for i in range(4))
+
     orig_cfg = ps.CreateKernelConfig
 
     def create_kernel_config(*a, **kw):
